@@ -930,6 +930,15 @@ def r16_ctor_funnel(facts):
     stmts = root["stmts"] if root.get("k") == "Block" else []
     tail = strip(root.get("e")) if root.get("k") == "Block" else None
     # every call of a private builder outside the funnel passes the same assertions on the way
+    self_checking = set()
+    for bd, (di, vi) in sorted(builders.items()):
+        bb = facts.body(bd)
+        broot = strip(facts.root(bb)) if bb is not None else None
+        bps = [p_ for p_ in facts.params(bb) if p_.get("pat")] if bb is not None else []
+        if isinstance(broot, dict) and broot.get("k") == "Block" and len(bps) > max(di, vi) and bps[di]["pat"].get("k") == "Binding" and bps[vi]["pat"].get("k") == "Binding":
+            g0, _n0 = collect_asserted(facts, broot["stmts"], {bps[di]["pat"]["v"]: "dims", bps[vi]["pat"]["v"]: "vals"})
+            if g0.get("positive") is not None and g0.get("count") is not None:
+                self_checking.add(bd)        # the builder refuses by itself, on its own parameters, before its literal
     for bd, (di, vi) in sorted(builders.items()):
         for cb in facts.bodies:
             for n_ in walk(facts.root(cb)):
@@ -938,6 +947,9 @@ def r16_ctor_funnel(facts):
                 if cb["def"] == clone_def or (fb is not None and cb["def"] == fb["def"]):
                     continue
                 inst = "builder-call:%s" % cb["def"]
+                if bd in self_checking:
+                    c.ok(inst, loc(cb, n_), "the private Array builder performs both refusals itself (`every dimension >= 1`, `product(dimensions) == values.len()` on its own parameters)")
+                    continue
                 croot = strip(facts.root(cb))
                 cst = croot["stmts"] if isinstance(croot, dict) and croot.get("k") == "Block" else []
                 ctail = strip(croot.get("e")) if isinstance(croot, dict) and croot.get("k") == "Block" and croot.get("e") is not None else None
@@ -990,7 +1002,10 @@ def r16_ctor_funnel(facts):
                     c.unk(inst, loc(cb, n_), "the call of the private Array builder is preceded by refusals / helper calls in a form this rule does not read")
                 else:
                     c.bad(inst, loc(cb, n_), BAD_)
+    via_self_checking = None
     if isinstance(tail, dict) and tail.get("k") == "Call" and resolved(tail) in builders:
+        if resolved(tail) in self_checking:
+            via_self_checking = tail
         di, vi = builders[resolved(tail)]
         tail = {"k": "Adt", "adt": ARRAY, "fields": [{"name": "dimensions", "e": tail["args"][di]}, {"name": "values", "e": tail["args"][vi]}], "sp": tail.get("sp")}
     if not (isinstance(tail, dict) and tail.get("k") == "Adt" and tail["adt"] == ARRAY):
@@ -1011,8 +1026,8 @@ def r16_ctor_funnel(facts):
             if any(x.get("k") in ("Return", "Break") for x in walk(s["e"])):
                 c.unk("funnel:early-exit", loc(fb, s["e"]), "early exit between the assertions and the literal")
     got, n_asserted = collect_asserted(facts, stmts, {dim_v: "dims", val_v: "vals"})
-    got_pos = got.get("positive")
-    got_len = got.get("count")
+    got_pos = got.get("positive") or via_self_checking
+    got_len = got.get("count") or via_self_checking
 
     def _unread_refusals(body, role_vars):
         """refusals (diverging branches) in `body` or in the crate-local functions it hands the role variables to, in a form collect_asserted does not read"""
